@@ -12,6 +12,8 @@ NEEDS = {
  'C08-a': ("reschedule_queue no longer reschedules a queue in WaitingForPoll", "a future_sync future whose poll claimed the queue, dropped before completion, after a pool thread has already popped and skipped the queue's stale schedule entry"),
  'C09-a': ("try_sync: an Idle queue is always claimed and run (queue-length guard removed)", "two threads on one object; try_sync taking the lock between a runner's 'state = Idle' and reschedule_queue (or a waker's WaitingForWake -> Idle) while jobs are queued"),
  'C10-a': ("next_to_run inspects only the head of the schedule", "small pool with all threads momentarily occupied, a stale schedule entry (sync stole a Pending queue) at the head, another object's queue behind it, then a pool thread becoming free"),
+ 'C15-a': ("ActiveQueue guard marks the queue Panicked only if its state is exactly Running (forgets AwokenWhileRunning)", "a wake of one of the queue's wakers arriving while a job of that queue is executing, and a panic in that job (or a later job of the same drain batch) before any job returns Pending"),
+ 'C17-a': ("spawn_thread_if_less_than_maximum: length checked under the threads lock, thread created and pushed after re-taking it", "pool below its maximum and two scheduling calls racing through 'no dormant thread, spawn one' within the duration of a thread spawn"),
  'C12-a': ("pipe(): buffer-full check and back-pressure registration in two separate critical sections", "back-pressure reached and a consumer pop landing exactly between the producer's 'buffer full' check and its registration, with no later repairing poll by the consumer"),
 }
 for id in sorted(os.listdir('/verif/seeded')):
